@@ -791,6 +791,7 @@ pub fn main(spec: Spec, body: fn(&mut Ctx)) -> ! {
     // ---- parent ------------------------------------------------------------------------
     let t0 = Instant::now();
     let seed = seed_from_env();
+    crate::util::sweep_dead_run_dirs();
     let dir = run_dir();
     let exe = std::env::current_exe().unwrap();
     let n = a.workers.max(1);
